@@ -461,10 +461,18 @@ def occ_parts(v):
     return None
 
 
+_VAC_E = [None]
+
+
 def vac_key(v):
-    """VacantEntry value -> the key it carries (the one field that is not the table reference)"""
+    """VacantEntry value -> the key it carries (located by type: the one field of a type-parameter type; markers
+    such as PhantomData carry nothing)"""
     if v is not None and v[0] == 'adt' and v[1] == VAC:
-        c = [x for x in v[3] if x[0] != 'ref']
+        E = _VAC_E[0]
+        mf = E.missed_fields(v[1]) if E is not None else None
+        if mf is not None and mf[0] < len(v[3]):
+            return v[3][mf[0]]
+        c = [x for x in v[3] if x[0] != 'ref' and not (x[0] == 'adt' and not x[3])]
         if len(c) == 1:
             return c[0]
     return None
@@ -2888,6 +2896,23 @@ def h_fmt_via_clone(ctx, p):
     ctx.req('LISTING', shared or val_eq_z(p.z, v1, p.self0), nm, 'formatting must not advance or change the iterator itself', p)
 
 
+def h_iter_clone_from(ctx, p):
+    """clone_from of a borrowing iterator: afterwards the receiver stands exactly where the source stands"""
+    ctx.classes['made'] += 1
+    v1 = final_self(p)
+    src = p.args0[1] if len(p.args0) > 1 else None
+    d = 0
+    while src is not None and src[0] == 'ref' and d < 4:
+        try:
+            src = p.E.load(p.st, src[2], quiet=True)
+        except Exception:
+            src = None
+        d += 1
+    ok = v1 is not None and src is not None and val_eq_z(p.z, v1, src)
+    ctx.req('OUT', ok, 'clone_from', 'after clone_from the iterator must continue exactly where the source stands '
+            '(receiver %s, source %s)' % (str(v1)[:160], str(src)[:160]), p)
+
+
 def h_algebra_clone(ctx, p):
     """Clone of a lazy set-algebra iterator: the copy equals the original (same operands, same cursors), so it
     yields exactly what the original still would; the original stays as it is"""
@@ -2906,6 +2931,8 @@ def fmt_clone_iteration(props):
         fm = [e for e in seg if e[0] == 'fmtarg']
         if not ys and not fm:
             return
+        if any(e[0] == 'entries-over' for e in st.events):
+            return      # entries(copy): core renders exactly what the copy yields; judged by the path schema
         E.iter_classes['rendered'] += 1
         it = Iteration(E, st, seg)
         some = [e for e in ys if e[2] is not None]
@@ -3321,6 +3348,9 @@ for _path, _how in ((ITER, 'pair'), (ITERMUT, 'pair'), (KEYS, 'key'), (VALUES, '
     ADV_TRACK.add((_path, IT, 'nth'))
 for _path in (ITER, KEYS, VALUES, SETITER):
     HANDLERS[(_path, 'Clone', 'clone')] = ({'C09'}, h_iter_clone)
+    HANDLERS[(_path, 'Clone', 'clone_from')] = ({'C09'}, h_iter_clone_from)
+    OPTIONAL.add((_path, 'Clone', 'clone_from'))
+    CLASSES[(_path, 'Clone', 'clone_from')] = {'made'}
 for _path, _how in ((DRAIN, 'owned-pair'), (SETDRAIN, 'owned-key')):
     HANDLERS[(_path, IT, 'next')] = ({'C10'}, h_cursor_next(_how))
     HANDLERS[(_path, IT, 'size_hint')] = ({'C10'}, h_cursor_count('size_hint'))
@@ -3507,6 +3537,7 @@ def _ty_has_ref(t, d=0):
 
 
 def check_root(E, body, rr):
+    _VAC_E[0] = E
     key = root_key(body)
     digest = {'root_key': '%s/%s/%s' % key}
     if rr is None or getattr(rr, 'args', None) is None:
